@@ -19,6 +19,8 @@ type ObGroup struct {
 	Pos       string
 	Canary    bool
 	Instances []*Obligation
+	ReplayGo  string
+	ReplayDir string
 	// result
 	Status  string // proved | trivial | failed | unknown | vacuous(canary proved) | reachable(canary ok)
 	Solver  string
@@ -75,8 +77,10 @@ func discharge(groups []*ObGroup, opt DischargeOpts) {
 		g      *ObGroup
 		script string
 		gv     []*Term
+		sub    int // >0: one instance of a split group
 	}
 	var jobs []job
+	split := map[*ObGroup]int{}
 	// term construction is single-threaded
 	for _, g := range groups {
 		q := g.query()
@@ -98,10 +102,34 @@ func discharge(groups []*ObGroup, opt DischargeOpts) {
 		if opt.ModelTerms != nil && !g.Canary {
 			gv = opt.ModelTerms(g)
 		}
+		// small groups of quantified obligations are discharged instance by instance (simpler queries)
+		nt := 0
+		for _, o := range g.Instances {
+			if !o.Claim.IsTrue() {
+				nt++
+			}
+		}
+		if !g.Canary && nt > 1 && nt <= 24 && hasQuant(q) {
+			k := 0
+			for _, o := range g.Instances {
+				if o.Claim.IsTrue() {
+					continue
+				}
+				k++
+				qi := And(append(append([]*Term(nil), o.PC...), Not(o.Claim))...)
+				sc := Script([]*Term{qi}, gv, "", TS.Defs)
+				g.SMTSize += len(sc)
+				jobs = append(jobs, job{g, sc, gv, k})
+			}
+			split[g] = k
+			g.Status = "proved"
+			continue
+		}
 		script := Script([]*Term{q}, gv, "", TS.Defs)
 		g.SMTSize = len(script)
-		jobs = append(jobs, job{g, script, gv})
+		jobs = append(jobs, job{g, script, gv, 0})
 	}
+	var mu sync.Mutex
 	par := opt.Par
 	if par <= 0 {
 		par = 8
@@ -122,6 +150,35 @@ func discharge(groups []*ObGroup, opt DischargeOpts) {
 				}
 			}
 			r := Solve(j.script, to, opt.Seed, fmt.Sprintf("q%d", i), opt.NeedTwo && !j.g.Canary)
+			if j.sub > 0 {
+				mu.Lock()
+				defer mu.Unlock()
+				g := j.g
+				g.Secs += r.Secs
+				g.Tried = append(g.Tried, r.Tried...)
+				switch r.Status {
+				case "unsat":
+					if g.Solver == "" || !strings.Contains(g.Solver, r.Solver) {
+						if g.Solver != "" {
+							g.Solver += "+"
+						}
+						g.Solver += r.Solver
+					}
+				case "sat":
+					g.Status = "failed"
+					g.Solver = r.Solver
+					g.RawOut = r.Output
+					g.Model = parseModel(r.Output, j.gv)
+					g.Script = j.script
+				default:
+					if g.Status != "failed" {
+						g.Status = "unknown"
+						g.RawOut = r.Output
+						g.Script = j.script
+					}
+				}
+				return
+			}
 			j.g.Solver, j.g.Secs, j.g.Tried = r.Solver, r.Secs, r.Tried
 			switch r.Status {
 			case "unsat":
@@ -296,4 +353,25 @@ func sortedKeys(m map[string]string) []string {
 	}
 	sort.Strings(ks)
 	return ks
+}
+
+func hasQuant(t *Term) bool {
+	seen := map[int]bool{}
+	var rec func(t *Term) bool
+	rec = func(t *Term) bool {
+		if seen[t.id] {
+			return false
+		}
+		seen[t.id] = true
+		if t.Op == "forall" || t.Op == "exists" {
+			return true
+		}
+		for _, a := range t.Args {
+			if rec(a) {
+				return true
+			}
+		}
+		return false
+	}
+	return rec(t)
 }
